@@ -25,7 +25,7 @@ THEOREMS = [
     'epochStep_log', 'pure_callback_persists', 'loop_pure_persist', 'pure_action_runs_iff_sem',
     'stop_flag_iff', 'stop_semantics', 'early_exit_only_by_stop', 'fit_after_stop_runs', 'loop_locs', 'fit_epochs',
     'set_once', 'set_reset', 'set_effect', 'setOptimizer_once', 'setOptimizer_reset', 'setOptimizer_distinct_params',
-    'trunc_eq_floor_under_max', 'floor_logb_ge_iff', 'eveK_spec', 'eve_formula', 'eve_model_eq_code', 'eve_action',
+    'trunc_eq_floor_under_max', 'floor_logb_ge_iff', 'eveK_spec', 'eve_formula', 'eve_model_eq_code', 'eve_model_eq_code_any', 'eveKAny_spec', 'eveK_spec_gt', 'eve_action',
 ]
 LOSS_OFFSET = 1000
 PER_NET = 4
@@ -568,7 +568,7 @@ def eve_expected(a, v_int, den):
     x = Fraction(v_int, den) / Fraction(v0)
     fp = Fraction(p)
     k = 0
-    while x <= fp ** (k + 1):
+    while (x <= fp ** (k + 1)) if fp < 1 else (x >= fp ** (k + 1)):      # k = max(0, floor(log_p(v / v0))), for p below and above 1
         k += 1
     L = (math.log(v_int / den) - math.log(v0)) / math.log(p)
     n = n0 * 2 ** k
@@ -831,14 +831,14 @@ def gen_scripts(tier, seed):
     # (h) the batch-count rule on scripted metric values (dyadic rationals m / 2^16), inside fit()
     den = 2 ** 16
     for _ in range(30 if quick else 200):
-        v0, p = rng.choice([1.0, 0.5, 2.0, 0.3, 1.0]), rng.choice([0.1, 0.5, 0.25, 0.9, 0.01, 0.1])
+        v0, p = rng.choice([1.0, 0.5, 2.0, 0.3, 1.0]), rng.choice([0.1, 0.5, 0.25, 0.9, 0.01, 0.1, 2.0, 1.5, 3.0])
         n0, nmax, ut = rng.choice([1, 1, 2, 3]), rng.choice([None, None, 4, 8, 5, 1]), rng.random() < 0.7
         a = ['eve', v0, p, n0, nmax, ut]
         n = 24
         vals = []
         while len(vals) < 2 * n:
             kmax = 4 if nmax is None else 7
-            L = rng.uniform(-2.0, kmax + 0.999)
+            L = rng.uniform(-2.0, kmax + 0.999 if p < 1 else min(kmax + 0.999, math.log(200 / v0) / math.log(p)))
             if rng.random() < 0.3:
                 L = round(L) + rng.choice([-1, 1]) * rng.choice([2e-4, 1e-3, 5e-3, 0.02])     # close to, not inside, the boundary zone
             m = int(round(v0 * p ** L * den))
@@ -881,6 +881,47 @@ def eve_boundary_note(rng):
 
 
 # ----------------------------------------------------------------------------------------------------------------------
+
+def frozen_parameter_checks():
+    """set-once optimiser actions "leave the solver training every distinct parameter once per step": also parameters that are frozen
+    (requires_grad=False) at the moment of the switch and unfrozen later - they must be registered with the new optimiser"""
+    import warnings
+    import torch
+    from neurodiffeq import callbacks as CB
+    from neurodiffeq.solvers import Solver1D
+    from neurodiffeq.conditions import IVP
+    from neurodiffeq.networks import FCNN
+    from neurodiffeq.generators import Generator1D
+    from neurodiffeq import diff
+    bad = []
+    with warnings.catch_warnings():
+        warnings.simplefilter('ignore')
+        for how in ('class', 'class+reset'):
+            torch.manual_seed(2)
+            net = FCNN(1, 1, hidden_units=(4, 4))
+            first = list(net.NN[0].parameters())
+            for p in first:
+                p.requires_grad_(False)
+            g = Generator1D(8, 0.0, 1.0, method='equally-spaced')
+            s = Solver1D(lambda u, t: [diff(u, t) + u], [IVP(0.0, 1.0)], t_min=0.0, t_max=1.0, nets=[net], train_generator=g, valid_generator=g,
+                         n_batches_valid=1)
+            cb = CB.SetOptimizer(torch.optim.SGD, optimizer_kwargs=dict(lr=0.05), reset=(how == 'class+reset'))
+            s.fit(2, callbacks=[cb.conditioned_on(CB.OnFirstLocal())] if hasattr(CB, 'OnFirstLocal') else [cb], tqdm_file=None)
+            registered = {id(p) for grp in s.optimizer.param_groups for p in grp['params']}
+            missing = [n_ for n_, p in net.named_parameters() if id(p) not in registered]
+            if missing:
+                bad.append(dict(script=dict(family='set-optimizer with frozen parameters', how=how),
+                                violated=[f'parameters never handed to the new optimiser (frozen at the switch): {missing}']))
+                continue
+            for p in first:
+                p.requires_grad_(True)
+            before = [p.detach().clone() for p in first]
+            s.fit(3, tqdm_file=None)
+            if all(torch.equal(a, b.detach()) for a, b in zip(before, first)):
+                bad.append(dict(script=dict(family='set-optimizer with frozen parameters', how=how),
+                                violated=['parameters unfrozen after the switch are not trained by the set-once optimiser']))
+    return bad
+
 
 def check(tier, seed):
     rep = Report(PID, tier, seed)
@@ -939,6 +980,7 @@ def check(tier, seed):
             driver_s += flush()
     t_real = time.time() - t_real - driver_s
     driver_s += flush()
+    failing += frozen_parameter_checks()
     # malformed stream
     mal_blocks, mal_real = [], []
     for name, line, ctor, exc in MALFORMED:
